@@ -219,14 +219,19 @@ func secRun(in []byte) (interface{}, error) {
 	}
 	node := &slot.SyncNode{Id: 0, Source: "10.1.1.1:6379", SourcePassword: sentinels["source.password_raw"], Target: []string{"10.2.2.2:6379"}, TargetPassword: sentinels["target.password_raw"], SlotLeftBoundary: 0, SlotRightBoundary: 100}
 	ds := dbSync.VerifNewDbSyncer(node, true, "rid", 100, 0, utils.CheckpointKey, 4)
-	st, _ := json.Marshal(ds.GetExtraInfo())
-	tr.Emit(tracer.Ev{"e": "emit", "sink": "syncer-status", "fields": fieldsIn(string(st) + fmt.Sprintf("%v", ds.GetExtraInfo())), "bytes": len(st)})
 	conf.Options.Type = conf.TypeSync
 	conf.Options.SourceAddressList = []string{"10.1.1.1:6379"}
 	metric.CreateMetric(&stubRunner{ds: []*dbSync.DbSyncer{ds}})
-	var rest []byte
-	runAbortable(func() { rest, _ = json.Marshal(metric.NewMetricRest()) })
-	tr.Emit(tracer.Ev{"e": "emit", "sink": "rest-metric", "fields": fieldsIn(string(rest)), "bytes": len(rest)})
+	// the status documents in every form they are served or printed in, with and without the `extra` option
+	for _, extra := range []bool{false, true} {
+		conf.Options.ExtraInfo = extra
+		st, _ := json.Marshal(ds.GetExtraInfo())
+		tr.Emit(tracer.Ev{"e": "emit", "sink": "syncer-status", "fields": fieldsIn(string(st) + fmt.Sprintf("%v %+v", ds.GetExtraInfo(), ds.GetExtraInfo())), "bytes": len(st), "extra": extra})
+		var rest []byte
+		runAbortable(func() { rest, _ = json.Marshal(metric.NewMetricRest()) })
+		tr.Emit(tracer.Ev{"e": "emit", "sink": "rest-metric", "fields": fieldsIn(string(rest)), "bytes": len(rest), "extra": extra})
+	}
+	conf.Options.ExtraInfo = false
 	// ---- every log line that carried a sentinel (collected as the lines were written, whatever the volume), and the totals
 	sink.mu.Lock()
 	leaks := append([]string(nil), sink.leaks...)
